@@ -6,6 +6,7 @@ import (
 	"context"
 	"database/sql"
 
+	"github.com/0xPolygon/cdk-contracts-tooling/contracts/pp/l2-sovereign-chain/polygonzkevmbridgev2"
 	"github.com/agglayer/aggkit/log"
 	"github.com/agglayer/aggkit/sync"
 	"github.com/agglayer/aggkit/tree"
@@ -40,9 +41,9 @@ func (v *VerifProcessor) Reorg(ctx context.Context, first uint64) error { return
 func (v *VerifProcessor) GetLastProcessedBlock(ctx context.Context) (uint64, error) {
 	return v.P.GetLastProcessedBlock(ctx)
 }
-func (v *VerifProcessor) IsHalted() bool                  { return v.P.isHalted() }
+func (v *VerifProcessor) IsHalted() bool                 { return v.P.isHalted() }
 func (v *VerifProcessor) ExitTree() *tree.AppendOnlyTree { return v.P.exitTree }
-func (v *VerifProcessor) Close() error                    { return v.P.db.Close() }
+func (v *VerifProcessor) Close() error                   { return v.P.db.Close() }
 
 // DB returns the processor's connection pool (the harness keeps a read in flight on it during a reorg).
 func (v *VerifProcessor) DB() *sql.DB { return v.P.db }
@@ -51,4 +52,14 @@ func (v *VerifProcessor) DB() *sql.DB { return v.P.db }
 // query entry points with their halted guards.
 func (v *VerifProcessor) Facade(originNetwork uint32) *BridgeSync {
 	return &BridgeSync{processor: v.P, originNetwork: originNetwork}
+}
+
+// VerifBuildAppender returns the log handlers of the bridge downloader around a caller-supplied client.
+func VerifBuildAppender(client aggkittypes.EthClienter, bridgeAddr common.Address, syncFullClaims bool,
+	logger *log.Logger) (sync.LogAppenderMap, error) {
+	bridgeContractV2, err := polygonzkevmbridgev2.NewPolygonzkevmbridgev2(bridgeAddr, client)
+	if err != nil {
+		return nil, err
+	}
+	return buildAppender(client, bridgeAddr, syncFullClaims, bridgeContractV2, logger)
 }
